@@ -27,11 +27,8 @@ theorem fit32_of_length {id : Bytes} (h : id.length = 32) : fit32 id = id := by
 
 theorem mkRequest_eq (id : Bytes) (flags : UInt64) :
     mkRequest true id flags = .ok (requestMessage (fit32 id) flags) := by
-  have h1 : (List.replicate 40 (0 : UInt8)).drop 8 = List.replicate 32 0 := by simp
-  have h3 : (le64 flags ++ List.replicate 32 (0 : UInt8)).take 8 = le64 flags := List.take_left' (by simp)
   have h4 : (fit32 id).take 32 = fit32 id := List.take_of_length_le (by simp)
-  have h5 : (le64 flags ++ List.replicate 32 (0 : UInt8)).drop 40 = [] := List.drop_of_length_le (by simp)
-  simp [mkRequest, putU64, copyAt, requestMessage, h1, h3, h4, h5]
+  simp [mkRequest, putU64, copyAt, requestMessage, h4]
 
 theorem putU64_fill (n : Nat) (v : UInt64) :
     putU64 (List.replicate (n + 8) 0) 0 v = .ok (le64 v ++ List.replicate n 0) := by
@@ -1641,5 +1638,18 @@ theorem session_lockstep (E : Env) (hz : ZstdOk E) (ids : List Bytes) (hid : ∀
       have := hc [] 0
       simp only [List.append_nil] at this
       simp only [wire_cons, wire_nil, List.append_nil, this, expected, hv, ih]
+
+/-- a chunk reply that carries no storage bytes is refused (`ChunkInvalid`), whatever the id: that
+    is what becomes of an object that decodes to no data, because `Compress` of nothing is nothing -/
+theorem empty_reply_refused (H : Bytes → Bytes) (dec : Bytes → Option Bytes) (id label rest : Bytes) (f : UInt64)
+    (a : Nat) (hl : label.length = 32) :
+    (clientReply H dec id ⟨writeMessage (chunkMessage label f []) ++ rest, a⟩).1 = .fail .invalid := by
+  unfold clientReply
+  rw [readMessage_writeMessage _ rest a (by simp [chunkMessage, hl])]
+  have hne : Gen.CaProtocolChunk ≠ Gen.CaProtocolMissing := by decide
+  have h40 : ¬ (le64 f ++ label ++ ([] : Bytes)).length < 40 := by simp [hl]
+  have hd : (le64 f ++ label ++ ([] : Bytes)).drop 40 = [] := List.drop_of_length_le (by simp [hl])
+  simp only [chunkMessage, hne, ↓reduceIte, h40, sliceFrom, hd,
+    (C03.undecodable_is_refused H dec id [] [.compressor]).2 rfl]
 
 end Desync.PS
